@@ -69,6 +69,8 @@ def _build(c, dst):
     elif len(bs) == 1 and (c["h"] + c["w"]) % 2 == 0:
         bs = bs[0]            # a single block size may be given as a plain number
     wkw = {"blocksize": bs, "stats": bool(c.get("stats", False)), "compression": c["comp"]}
+    if c.get("lvlk", "none") != "none":
+        wkw[c["lvlk"]] = c["lvlv"]
     if "pred" in c:
         wkw["predictor"] = {"off": False, "on": True, "2": 2, "3": 3}[c["pred"]]
     if "bigtiff" in c:
